@@ -51,3 +51,12 @@ def _zero_size(v):
     if v.get("kind") == "failed-mid-run":
         return f.get("type") in ("IndexError", "ValueError")
     return False
+
+
+@predicate("pickle_name_collision")
+def _pickle_names(v):
+    """Array/op names come from per-process counters and are the identity of nodes when plans are
+    merged (nx.compose_all): a deserialised array whose node names also occur in the plan of an array
+    built in the receiving process is merged with it by name (wrong operand, cycle, or assertion)."""
+    f = v.get("facts", {})
+    return v.get("kind") in ("combination-fails", "wrong-value") and bool(f.get("name_collision")) and f.get("how") != "alone"
